@@ -536,6 +536,15 @@ func (rpi RetentionPolicyInfo) Clone() *RetentionPolicyInfo {
 			other.MstVersions[k] = *mstv.clone()
 		}
 	}
+	// DropSubscription shifts the elements in place and DropDownSamplePolicy clears fields through the pointer
+	if rpi.Subscriptions != nil {
+		other.Subscriptions = make([]SubscriptionInfo, len(rpi.Subscriptions))
+		copy(other.Subscriptions, rpi.Subscriptions)
+	}
+	if rpi.DownSamplePolicyInfo != nil {
+		info := *rpi.DownSamplePolicyInfo
+		other.DownSamplePolicyInfo = &info
+	}
 	return &other
 }
 
